@@ -31,5 +31,7 @@ for sid in ids:
     finally:
         sh("git -C /repo checkout -- . && git -C /repo clean -fdq")
     json.dump(res, open(respath, "w"), indent=1, sort_keys=True)
+# the checks regenerate lean/Facts/Generated.lean from whatever /repo holds: leave the facts of the CLEAN tree behind
+sh("cd %s && git checkout -- lean/Facts/Generated.lean" % V)
 assert sh("git -C /repo status --porcelain").stdout.strip() == "", "/repo not clean after seedtest"
 # leave evidence of the unchanged tree behind: re-run is the caller's job
